@@ -28,6 +28,11 @@ def gen_case(rng):
     if rng.random() < 0.06:
         n = rng.choice([513, 520, 1030])   # more records than one growth step of the sequence table
     avg = rng.choice([1, 3, 10, 50, 200, 2000]) if n <= 10 else (rng.choice([1, 5, 30, 100]) if n <= 200 else rng.choice([4, 10]))
+    longform = rng.random() < 0.04
+    if longform:
+        # few sequences longer than 2^14 / 2^15 / 2^16 residues
+        n = rng.choice([2, 3])
+        avg = rng.choice([17000, 33000, 70000])
     total = max(n, n * avg)
     info = {"premise": premise}
     if premise == 1:
@@ -91,6 +96,14 @@ def gen_case(rng):
     seqs = [s for s in seqs if s]
     if len(seqs) < 2:
         seqs = ["".join(letters[:1]), "".join(letters[1:]) or letters[0]]
+    if premise == 2 and (longform or rng.random() < 0.08):
+        # the arrangement of the letters is not part of the premises: protein-only letters all at the end / all at the start of every sequence
+        arr = rng.choice(["rich_last", "rich_last", "rich_first"])
+        key = (lambda c: c.upper() in PROT_ONLY) if arr == "rich_last" else (lambda c: c.upper() not in PROT_ONLY)
+        seqs = ["".join(sorted(s_, key=key)) for s_ in seqs]
+        info["arrangement"] = arr
+    if longform:
+        info["longform"] = True
     return expect, seqs, info
 
 
@@ -195,6 +208,10 @@ def run_case(ck, paths, idx):
                     ck.violation("msf-label:%s" % ctx["expect"], "MSF output of a %s input starts with %r" % (ctx["expect"], first[:40]), c2)
     ck.evaluated((idx, info["premise"], len(seqs), hash(tuple(seqs)) & 0xffffff))
     ck.count("inputs_premise_%d" % info["premise"])
+    if info.get("arrangement"):
+        ck.count("inputs_with_protein_only_letters_%s" % info["arrangement"])
+    if info.get("longform"):
+        ck.count("inputs_with_sequences_over_16384_residues")
     ck.count("presentations", len(presentations))
     if info["premise"] == 2:
         ck.cmin("min_protein_only_fraction", round(info["fractions"]["protein_only"], 4))
@@ -211,7 +228,7 @@ def run(ck, tier):
     n = int((400 if tier == "quick" else 8000) * sc)
     common.pmap(lambda i: run_case(ck, paths, i), range(n), workers=14)
     ck.rule = ("compositions drawn to satisfy one premise: (1) arbitrary mixtures / single letters of A,C,G,T,U,N in either case; (2) protein-only letter fraction 0.25..1 with "
-               "the remainder from common letters, U and B/J/O/X/Z in all proportions; 2..200 sequences of 1..2000 residues; each presented as plain FASTA, as a gapped / "
+               "the remainder from common letters, U and B/J/O/X/Z in all proportions; 2..200 sequences of 1..2000 residues plus 2..3 sequences of 17000..70000 residues, letters shuffled or sorted (protein-only letters all first / all last); each presented as plain FASTA, as a gapped / "
                "padded alignment (0.3..20 gap characters per residue, also Clustal with wide name padding), permuted and renamed, and through kalign_arr_to_msa; observed: "
                "msa->biotype, CLI acceptance of --type dna/protein, MSF label. Every generated input is distinct by (premise, composition, content).")
     ck.assumptions = ["the 15 protein-only letters are DEFHIKLMPQRSVWY (the 20 amino acids minus A,C,G,T,N and U)"]
